@@ -92,4 +92,10 @@ META = {
         "note": "Selection is evaluated through the exported selection functions over a 4x3 name universe (the functions the readers and the DDL path call), not by observing replicated traffic; traffic-level exclusivity is exercised in the C05/C06 simulator runs. Store failures are single transient faults.",
         "technique": "property-based testing (rapid), stateful model-based oracle + reference bookkeeping, fault injection",
     },
+    "C19": {
+        "text": "Generated requests (grammar of valid parts + labelled planted invalidities + adversarial values + wrong types + raw non-UTF-8 bytes) and coverage-guided byte fuzzing against the real HTTP handler with an invariant oracle: well-formed single JSON answer with an allowed code, planted invalidity => rejected, and state triple (task list, full store dump, duplicate bookkeeping) unchanged by every non-200 answer. Found four defects (dotted names crash the handler, checkpoints of a rejected request stay in the store, non-UTF-8 request type and non-UTF-8 task id panic in the metrics), all fixed.",
+        "design_ref": "DESIGN.md section 4 C19",
+        "note": "The handler is driven in-process through httptest (no TCP). Native fuzzing is in the thorough tier only (cannot be seeded); its findings are kept as raw bodies under replays/C19 and re-run by the quick tier.",
+        "technique": "property-based testing (rapid) + native coverage-guided fuzzing (go test -fuzz), invariant + metamorphic (state unchanged) oracle",
+    },
 }
